@@ -615,3 +615,40 @@ Qed.
 Example commit_truncated_example :
   process_message (fun _ => true) lit_okey1 (removelast lit_oval0) 7 = Done [] [9; 9; 8].
 Proof. vm_compute. reflexivity. Qed.
+
+(* ------------------------------------------------------------------------------------------ *)
+(* C10, reader half, in terms of the two lists                                                 *)
+(* ------------------------------------------------------------------------------------------ *)
+
+(* "matches the allowlist if one is set and does not match the denylist if one is set": all 16 combinations *)
+Theorem reader_accept_spec : forall a_set a_m d_set d_m,
+  reader_accept a_set a_m d_set d_m = true <->
+  (a_set = true -> a_m = true) /\ ~ (d_set = true /\ d_m = true).
+Proof.
+  intros [] [] [] []; unfold reader_accept; cbn; split; intros H;
+    try discriminate; try reflexivity; try (split; [auto | intros [? ?]; discriminate]);
+    destruct H as [H1 H2]; try (specialize (H1 eq_refl); discriminate); exfalso; apply H2; split; reflexivity.
+Qed.
+
+(* Whatever the bytes, whatever the two patterns answer: every request the Kafka reader forwards is for a group that
+   matches the allowlist (if set) and does not match the denylist (if set). *)
+Theorem reader_lists_enforced : forall a_set d_set (am dm : list Z -> bool) key value o rs al,
+  process_message (fun g => reader_accept a_set (am g) d_set (dm g)) key value o = Done rs al ->
+  Forall (fun r => (a_set = true -> am (req_group r) = true) /\ ~ (d_set = true /\ dm (req_group r) = true)) rs.
+Proof.
+  intros a_set d_set am dm key value o rs al H.
+  apply reader_rejected_silent in H. eapply Forall_impl; [|exact H].
+  cbn beta. intros r Hr. apply reader_accept_spec in Hr. exact Hr.
+Qed.
+
+(* names used by the Examples of props/C06.v and props/C07.v *)
+Definition b_testgroup : list Z := str "testgroup".
+Definition b_testtopic : list Z := str "testtopic".
+Definition b_consumer : option (list Z) := sstr "consumer".
+Definition b_g : option (list Z) := sstr "g".
+Definition b_t1 : option (list Z) := sstr "t1".
+Definition b_t2 : option (list Z) := sstr "t2".
+Definition b_host1 : option (list Z) := sstr "/10.0.0.1".
+Definition b_host2 : option (list Z) := sstr "/10.0.0.2".
+Definition b_cid1 : option (list Z) := sstr "c1".
+Definition b_cid2 : option (list Z) := sstr "c2".
